@@ -1,0 +1,102 @@
+//go:build verif
+
+// Contracts for the deductive verifier in /verif (govc). Comments only.
+
+package header
+
+// ---- Via: loop detection and append (C18) ----
+
+// header names used by this package are already in canonical form
+//@ axiom canon("Via") == "Via"
+
+//@ pred firstVal(h http.Header, k string) = ite((k in h) && len(h[k]) > 0, h[k][0], "")
+//@ pred viaProto(major int, minor int) = ite(major*10 + minor == 20, "2.0", ite(major*10 + minor == 11, "1.1", "1.0"))
+
+// L18.3: the element this instance emits is name + "-" + boundary.
+//@ func NewViaModifierWithBoundary
+//@ property C18
+//@ pure
+//@ ensures result != nil && fresh(result) && result.tag == requestedBy + "-" + boundary
+
+//@ func (*ViaModifier).nextLen
+//@ property C18
+//@ requires m != nil
+//@ pure
+//@ ensures result >= 0
+
+// L18.1 / L18.2: a Via chain that already contains this instance's element is
+// refused with status 400, the connection is marked for closing and the
+// header is left alone; otherwise exactly one element - protocol version and
+// tag - is appended after the existing chain.
+//@ func (*ViaModifier).ModifyRequest
+//@ property C18 C01
+//@ requires m != nil && req != nil && req.Header != nil
+//@ modifies req.Close, req.Header[*], sbStr, elems(any), elems(string), elems(byte), pkg(bytes)
+//@ ensures old(firstVal(req.Header, "Via")) != "" && contains(old(firstVal(req.Header, "Via")), m.tag) ==> result != nil && result is martian.ErrorStatus && result.(martian.ErrorStatus).Status == 400 && req.Close
+//@ ensures old(firstVal(req.Header, "Via")) != "" && contains(old(firstVal(req.Header, "Via")), m.tag) ==> forall k string :: (k in req.Header) == old(k in req.Header) && req.Header[k] == old(req.Header[k])
+//@ ensures !(old(firstVal(req.Header, "Via")) != "" && contains(old(firstVal(req.Header, "Via")), m.tag)) ==> result == nil && req.Close == old(req.Close) && ("Via" in req.Header) && len(req.Header["Via"]) == 1
+//@ ensures !(old(firstVal(req.Header, "Via")) != "" && contains(old(firstVal(req.Header, "Via")), m.tag)) ==> forall k string :: k != "Via" ==> (k in req.Header) == old(k in req.Header) && req.Header[k] == old(req.Header[k])
+//@ ensures result == nil && old(firstVal(req.Header, "Via")) == "" && (req.ProtoMajor*10 + req.ProtoMinor == 20 || req.ProtoMajor*10 + req.ProtoMinor == 11 || req.ProtoMajor*10 + req.ProtoMinor == 10) ==> req.Header["Via"][0] == viaProto(req.ProtoMajor, req.ProtoMinor) + " " + m.tag
+//@ ensures result == nil && old(firstVal(req.Header, "Via")) != "" && (req.ProtoMajor*10 + req.ProtoMinor == 20 || req.ProtoMajor*10 + req.ProtoMinor == 11 || req.ProtoMajor*10 + req.ProtoMinor == 10) ==> req.Header["Via"][0] == old(firstVal(req.Header, "Via")) + ", " + viaProto(req.ProtoMajor, req.ProtoMinor) + " " + m.tag
+
+// ---- hop-by-hop removal (C06 L6.1, C01, C02 L2.6) ----
+
+//@ axiom canon("Connection") == "Connection" && canon("Keep-Alive") == "Keep-Alive" && canon("Proxy-Authenticate") == "Proxy-Authenticate" && canon("Proxy-Authorization") == "Proxy-Authorization" && canon("Proxy-Connection") == "Proxy-Connection" && canon("Te") == "Te" && canon("Trailer") == "Trailer" && canon("Transfer-Encoding") == "Transfer-Encoding" && canon("Upgrade") == "Upgrade"
+//@ globalinv len(hopByHopHeaders) == 9 && hopByHopHeaders[0] == "Connection" && hopByHopHeaders[1] == "Keep-Alive" && hopByHopHeaders[2] == "Proxy-Authenticate" && hopByHopHeaders[3] == "Proxy-Authorization" && hopByHopHeaders[4] == "Proxy-Connection" && hopByHopHeaders[5] == "Te" && hopByHopHeaders[6] == "Trailer" && hopByHopHeaders[7] == "Transfer-Encoding" && hopByHopHeaders[8] == "Upgrade"
+
+//@ define isHopByHop(k string) bool = k == "Connection" || k == "Keep-Alive" || k == "Proxy-Authenticate" || k == "Proxy-Authorization" || k == "Proxy-Connection" || k == "Te" || k == "Trailer" || k == "Transfer-Encoding" || k == "Upgrade"
+
+// Every hop-by-hop field is gone afterwards - in particular the client's
+// Proxy-Authorization never travels further - and nothing else is added or altered.
+//@ func removeHopByHopHeaders
+//@ property C06 C01 C02
+//@ requires header != nil
+//@ modifies header[*], elems(string)
+//@ ensures forall k string :: isHopByHop(k) ==> !(k in header)
+//@ ensures forall k string :: (k in header) ==> old(k in header) && header[k] == old(header[k])
+//@ loop 0:
+//@   invariant forall k string :: (k in header) ==> old(k in header) && header[k] == old(header[k])
+//@ loop 1:
+//@   invariant forall k string :: (k in header) ==> old(k in header) && header[k] == old(header[k])
+//@ loop 2:
+//@   invariant forall k string :: (k in header) ==> old(k in header) && header[k] == old(header[k])
+//@   invariant forall j int :: 0 <= j && j < 9 ==> (j <= rangeindex ==> !(hopByHopHeaders[j] in header))
+
+//@ func (*hopByHopModifier).ModifyRequest
+//@ property C06 C01
+//@ requires req != nil && req.Header != nil
+//@ modifies req.Header[*], elems(string)
+//@ ensures result == nil
+//@ ensures forall k string :: isHopByHop(k) ==> !(k in req.Header)
+//@ ensures forall k string :: (k in req.Header) ==> old(k in req.Header) && req.Header[k] == old(req.Header[k])
+
+//@ func (*hopByHopModifier).ModifyResponse
+//@ property C02
+//@ requires res != nil && res.Header != nil
+//@ modifies res.Header[*], elems(string)
+//@ ensures result == nil
+//@ ensures forall k string :: isHopByHop(k) ==> !(k in res.Header)
+//@ ensures forall k string :: (k in res.Header) ==> old(k in res.Header) && res.Header[k] == old(res.Header[k])
+
+//@ func NewHopByHopModifier
+//@ property C18 C01
+//@ pure
+//@ ensures result is *hopByHopModifier && nonnilptr(result)
+
+// (the read of crypto/rand is not modelled; randomBoundary panics if it fails)
+//@ func randomBoundary
+//@ trusted
+//@ pure
+
+//@ func NewViaModifier
+//@ property C18
+//@ pure
+//@ ensures result != nil && fresh(result)
+
+//@ func NewForwardedModifier
+//@ trusted
+//@ ensures result != nil
+
+//@ func NewBadFramingModifier
+//@ trusted
+//@ ensures result != nil
